@@ -162,7 +162,7 @@ Definition codes_of (k : nat) (outs : list (nat * result Z)) : list (result Z) :
 
 (* operations that matter for key k: clock steps and the takes on k *)
 Definition relevant (k : nat) (o : pop) : bool :=
-  match o with PTick _ => true | PTake k' _ _ _ => Nat.eqb k' k end.
+  match o with PTick _ => true | PTake k' _ _ _ => Nat.eqb k' k | PReplace => true end.
 
 Lemma codes_of_cons k x outs :
   codes_of k (x :: outs) = if Nat.eqb (fst x) k then snd x :: codes_of k outs else codes_of k outs.
@@ -173,7 +173,7 @@ Lemma keys_independent_gen k ops : forall t (s1 s2 : store),
   codes_of k (prun (t, s1) ops) = codes_of k (prun (t, s2) (filter (relevant k) ops)).
 Proof.
   induction ops as [|o r IH]; intros t s1 s2 E; [reflexivity|].
-  destruct o as [d|k' q w up]; simpl.
+  destruct o as [d|k' q w up|]; simpl.
   - apply IH. assumption.
   - destruct (Nat.eqb k' k) eqn:K.
     + apply Nat.eqb_eq in K. subst k'. simpl.
@@ -186,6 +186,7 @@ Proof.
       destruct (take t up k' q w s1) as [s1' r1]. simpl in *.
       rewrite codes_of_cons. simpl. rewrite K. apply IH. rewrite A; [assumption|].
       intro; subst. rewrite Nat.eqb_refl in K. discriminate.
+  - apply IH. reflexivity.
 Qed.
 
 Lemma keys_independent k st ops :
@@ -203,6 +204,7 @@ Definition in_window (k : nat) (q : Z) (o : pop) : Prop :=
   match o with
   | PTick d => 0 <= d
   | PTake k' l _ up => k' = k -> l = q /\ up = true
+  | PReplace => False          (* the server keeps its state during the window *)
   end.
 
 Fixpoint elapsed (ops : list pop) : Z :=
@@ -210,6 +212,7 @@ Fixpoint elapsed (ops : list pop) : Z :=
   | [] => 0
   | PTick d :: r => d + elapsed r
   | PTake _ _ _ _ :: r => elapsed r
+  | PReplace :: r => elapsed r
   end.
 
 Fixpoint ntakes (k : nat) (ops : list pop) : nat :=
@@ -217,11 +220,12 @@ Fixpoint ntakes (k : nat) (ops : list pop) : nat :=
   | [] => O
   | PTick _ :: r => ntakes k r
   | PTake k' _ _ _ :: r => if Nat.eqb k' k then S (ntakes k r) else ntakes k r
+  | PReplace :: r => ntakes k r
   end.
 
 Lemma elapsed_nonneg k q ops : Forall (in_window k q) ops -> 0 <= elapsed ops.
 Proof.
-  induction 1 as [|o r H _ IH]; simpl; [lia|]. destruct o; simpl in *; lia.
+  induction 1 as [|o r H _ IH]; simpl; [lia|]. destruct o; simpl in *; try contradiction; lia.
 Qed.
 
 Lemma window_segment k q ops : forall t (s : store) c ex,
@@ -234,7 +238,7 @@ Proof.
   induction ops as [|o r IH]; intros t s c ex E C T F.
   - cbn [prun pfinal ntakes elapsed seq map codes_of filter fst snd]. split; [reflexivity|]. split; [lia|]. replace (c + Z.of_nat 0) with c by lia. exact E.
   - inversion F as [|? ? Ho Fr]; subst. pose proof (elapsed_nonneg _ _ _ Fr) as NN.
-    destruct o as [d|k' l w up]; simpl in *.
+    destruct o as [d|k' l w up|]; simpl in *; [| |contradiction].
     + assert (T' : t + d + elapsed r < ex) by lia.
       destruct (IH (t + d) s c ex E C T' Fr) as (I1 & I2 & I3). split; [assumption|]. split; [rewrite I2; lia|assumption].
     + destruct (Nat.eqb k' k) eqn:K.
@@ -301,7 +305,7 @@ Qed.
 (* --- restart only after expiry --- *)
 (* operations that do not take on k *)
 Definition not_on (k : nat) (o : pop) : Prop :=
-  match o with PTick d => 0 <= d | PTake k' _ _ _ => k' <> k end.
+  match o with PTick d => 0 <= d | PTake k' _ _ _ => k' <> k | PReplace => False end.
 
 Lemma not_on_preserves k ops : forall t (s : store), Forall (not_on k) ops ->
   fst (pfinal (t, s) ops) = t + elapsed ops /\
@@ -309,7 +313,7 @@ Lemma not_on_preserves k ops : forall t (s : store), Forall (not_on k) ops ->
 Proof.
   induction ops as [|o r IH]; intros t s F; simpl.
   - split; [lia|reflexivity].
-  - inversion F as [|? ? Ho Fr]; subst. destruct o as [d|k' l w up]; simpl in *.
+  - inversion F as [|? ? Ho Fr]; subst. destruct o as [d|k' l w up|]; simpl in *; [| |contradiction].
     + destruct (IH (t + d) s Fr) as [I1 I2]. split; [lia|assumption].
     + pose proof (take_other t up k k' l w s) as A. destruct (take t up k' l w s) as [s' res]. simpl in *.
       destruct (IH t s' Fr) as [I1 I2]. split; [assumption|]. rewrite I2. apply A. congruence.
@@ -344,6 +348,7 @@ Fixpoint wrun (t : Z) (ws : windows) (ops : list pop) : list (nat * result Z) :=
   | PTake k q w up :: r =>
       if up then let (ws', c) := wtake t k q w ws in (k, Ok c) :: wrun t ws' r
       else (k, Err 1%nat) :: wrun t ws r
+  | PReplace :: r => wrun t [] r
   end.
 
 Definition win_rel (s : store) (ws : windows) : Prop :=
@@ -354,13 +359,13 @@ Definition win_rel (s : store) (ws : windows) : Prop :=
             end.
 
 Definition pos_windows (o : pop) : Prop :=
-  match o with PTick _ => True | PTake _ _ w _ => 1 <= w end.
+  match o with PTick _ => True | PTake _ _ w _ => 1 <= w | PReplace => True end.
 
 Lemma refines_windows ops : forall t (s : store) (ws : windows), win_rel s ws -> Forall pos_windows ops ->
   prun (t, s) ops = wrun t ws ops.
 Proof.
   induction ops as [|o r IH]; intros t s ws R F; [reflexivity|].
-  inversion F as [|? ? Ho Fr]; subst. destruct o as [d|k q w up]; simpl in *.
+  inversion F as [|? ? Ho Fr]; subst. destruct o as [d|k q w up|]; simpl in *.
   - apply IH; assumption.
   - destruct up.
     + pose proof (take_entry_spec t true k q w s) as [A1 A2].
@@ -384,6 +389,16 @@ Proof.
         -- rewrite A1, alookup_aset_same. repeat split; lia.
         -- rewrite A3, alookup_aset_other by assumption. apply R.
     + unfold take. cbn [fst snd]. f_equal. apply IH; assumption.
+  - apply IH; [|assumption]. intro k. exact I.
+Qed.
+
+(* a replaced server is a fresh one: the history continues as from an empty Redis *)
+Lemma prun_replace ops1 : forall st ops2,
+  prun st (ops1 ++ PReplace :: ops2) = prun st ops1 ++ prun (fst (pfinal st ops1), []) ops2.
+Proof.
+  induction ops1 as [|o r IH]; intros st ops2; [reflexivity|].
+  cbn [app prun pfinal]. destruct (pstep st o) as [st' out]. cbn [fst]. rewrite IH.
+  destruct out; reflexivity.
 Qed.
 
 (* ===================================================================================== *)
@@ -797,30 +812,42 @@ Fixpoint rescue_only (rate burst : Z) (r : rescue_st) (evs : list tev) : list bo
   | _ :: rest => rescue_only rate burst r rest
   end.
 
-Definition no_pong (e : tev) : Prop := match e with TFault _ pup => pup = false | _ => True end.
+Definition no_pong (e : tev) : Prop :=
+  match e with TFault _ pup => pup = false | TReplace _ pup => pup = false | _ => True end.
+Definition no_replace (e : tev) : Prop := match e with TReplace _ _ => False | _ => True end.
 
 Lemma outage_segment c evs : forall w l,
   alive l = false -> monitor l = MRunning -> ping_up w = false -> Forall no_pong evs ->
   let res := trun c (w, l) evs in
   snd res = rescue_only (c_rate c) (c_burst c) (rescue l) evs /\
-  rstore (fst (fst res)) = rstore w /\ alive (snd (fst res)) = false.
+  (Forall no_replace evs -> rstore (fst (fst res)) = rstore w) /\ alive (snd (fst res)) = false.
 Proof.
   induction evs as [|e r IH]; intros w l A M P F; [cbn; auto|].
   inversion F as [|? ? He Fr]; subst.
-  destruct e as [d|now n cx|eup pup| |]; cbn [trun tstep rescue_only].
+  assert (NR : forall (X : Prop), (Forall no_replace r -> X) -> Forall no_replace (e :: r) -> X).
+  { intros X HX HF. inversion HF; auto. }
+  destruct e as [d|now n cx|eup pup|eup pup| |]; cbn [trun tstep rescue_only].
   - specialize (IH (mkW (clock w + d) (rstore w) (eval_up w) (ping_up w)) l A M P Fr).
-    destruct (trun c (mkW (clock w + d) (rstore w) (eval_up w) (ping_up w), l) r) as [stf outs]. exact IH.
+    destruct (trun c (mkW (clock w + d) (rstore w) (eval_up w) (ping_up w), l) r) as [stf outs].
+    destruct IH as (I1 & I2 & I3). split; [assumption|]. split; [apply NR; exact I2|assumption].
   - rewrite (reserve_not_alive c w l now n cx A).
     destruct (rescue_allow (c_rate c) (c_burst c) now n (rescue l)) as [r' ok]. cbn [fst snd].
     specialize (IH w (mkL false (monitor l) r') eq_refl M P Fr). cbn [rescue] in IH.
     destruct (trun c (w, mkL false (monitor l) r') r) as [stf outs]. cbn [fst snd] in *.
-    destruct IH as (I1 & I2 & I3). rewrite I1. auto.
+    destruct IH as (I1 & I2 & I3). rewrite I1. split; [reflexivity|]. split; [apply NR; exact I2|assumption].
   - simpl in He. subst pup. specialize (IH (mkW (clock w) (rstore w) eup false) l A M eq_refl Fr).
-    destruct (trun c (mkW (clock w) (rstore w) eup false, l) r) as [stf outs]. exact IH.
+    destruct (trun c (mkW (clock w) (rstore w) eup false, l) r) as [stf outs].
+    destruct IH as (I1 & I2 & I3). split; [assumption|]. split; [apply NR; exact I2|assumption].
+  - simpl in He. subst pup. specialize (IH (mkW (clock w) [] eup false) l A M eq_refl Fr).
+    destruct (trun c (mkW (clock w) [] eup false, l) r) as [stf outs].
+    destruct IH as (I1 & I2 & I3). split; [assumption|]. split; [|assumption].
+    intro HF. inversion HF as [|? ? H1 H2]; subst. contradiction.
   - assert (E : ping w l = l) by (unfold ping; rewrite M, P; reflexivity). rewrite E.
-    specialize (IH w l A M P Fr). destruct (trun c (w, l) r) as [stf outs]. exact IH.
+    specialize (IH w l A M P Fr). destruct (trun c (w, l) r) as [stf outs].
+    destruct IH as (I1 & I2 & I3). split; [assumption|]. split; [apply NR; exact I2|assumption].
   - assert (E : monitor_exit l = l) by (unfold monitor_exit; rewrite M; reflexivity). rewrite E.
-    specialize (IH w l A M P Fr). destruct (trun c (w, l) r) as [stf outs]. exact IH.
+    specialize (IH w l A M P Fr). destruct (trun c (w, l) r) as [stf outs].
+    destruct IH as (I1 & I2 & I3). split; [assumption|]. split; [apply NR; exact I2|assumption].
 Qed.
 
 (* F8: after the answered ping the very next healthy call is Redis's again *)
@@ -832,6 +859,40 @@ Lemma back_to_redis c w l now n s' ok :
 Proof.
   intros A M P U S. cbn [trun tstep]. rewrite (ping_recovers w l M P).
   rewrite (reserve_redis_decides c w (mkL true MExiting (rescue l)) now n s' ok eq_refl U S). reflexivity.
+Qed.
+
+(* F9: the server that answers again may be a FRESH instance (empty store, empty script cache):
+   after its first answered ping the next healthy call is decided by a full bucket on the new
+   server, and both bucket keys are written there *)
+Lemma script_on_empty t kt ks rate cap now n : 1 <= rate -> rate <= 2 * cap -> 0 <= cap ->
+  token_script t kt ks rate cap now n [] =
+    Some (rset ks (now, Some (t + 1000 * (2 * cap / rate)))
+            (rset kt ((if n <=? cap then cap - n else cap), Some (t + 1000 * (2 * cap / rate))) []),
+          n <=? cap).
+Proof.
+  intros H1 H2 H3. unfold token_script, setex, rget. cbn [alookup].
+  pose proof (ttl_pos_gen rate cap H1 H2) as P.
+  assert (E : (2 * cap / rate <=? 0) = false) by lia. rewrite E.
+  assert (0 <= Z.max 0 (now - 0) * rate) by (apply Z.mul_nonneg_nonneg; lia).
+  rewrite (Z.min_l cap) by lia. reflexivity.
+Qed.
+
+Lemma fresh_server c w l now n :
+  1 <= c_rate c -> c_rate c <= 2 * c_burst c -> 0 <= c_burst c ->
+  alive l = false -> monitor l = MRunning ->
+  let ttl := 2 * c_burst c / c_rate c in
+  let ok := n <=? c_burst c in
+  let s' := rset (c_kts c) (now / 1000, Some (clock w + 1000 * ttl))
+              (rset (c_ktok c) ((if ok then c_burst c - n else c_burst c), Some (clock w + 1000 * ttl)) []) in
+  trun c (w, l) [TReplace true true; TPing; TAllow now n CtxOk] =
+    ((mkW (clock w) s' true true, mkL true MExiting (rescue l)), [ok]).
+Proof.
+  intros H1 H2 H3 A M ttl ok s'.
+  assert (S : script_of c (mkW (clock w) [] true true) now n = Some (s', ok)).
+  { unfold script_of. cbn [clock rstore]. apply script_on_empty; assumption. }
+  cbn [trun tstep]. rewrite (ping_recovers (mkW (clock w) [] true true) l M eq_refl).
+  rewrite (reserve_redis_decides c (mkW (clock w) [] true true) (mkL true MExiting (rescue l)) now n s' ok eq_refl eq_refl S).
+  reflexivity.
 Qed.
 
 (* --- the in-process limiter is the bucket of Spec.v at millisecond resolution --- *)
